@@ -47,5 +47,16 @@ def run(res, tier, seed):
     if dis:
         O.first_row_violation(res, dis, 'operator-row-differs',
                               'the operator differs from the model the C02 identities are about', seed, tier)
+    # the level-1 right-hand side is the other half of the extrapolated system: solve() must leave it as setup() built it
+    import cycle_common as Y
+    outt = Y.run_trace(res, tier, seed)
+    if outt:
+        lines = [l for l in outt[0].split('\n') if l.startswith('PROP extrapolation-coarse-rhs-preserved')]
+        res.coverage['extrapolated_solves_with_coarse_rhs_checked'] = len(lines)
+        for l in lines:
+            if not l.rstrip().endswith('=> ok'):
+                res.violation('extrapolated-system-rhs-changed', {
+                    'what': l[:600], 'seed': seed, 'replay_cmd': 'VERIF_SEED=%d VERIF_TIER=%s build/harness/h_solver trace' % (seed, tier)})
+                break
     import p_C02b
     p_C02b.run(res, tier, seed)
